@@ -189,7 +189,8 @@ def isub (f : Fmt) (x y : F) : FR :=
   let r := denorm f y
   normD f (addDen f (denorm f x) { r with neg := !r.neg })
 
-/-- `imul(right)` -/
+/-- `imul(right)` as it was BEFORE the repair of defect D5 (early exit `lexp < -31` for every format);
+    the repaired code is `imulFixed` in Model/MbfMulFixed.lean, which the driver uses. -/
 def imul (f : Fmt) (x y : F) : FR :=
   if x.isZero || y.isZero then .ok zero else
   let l := denorm f x
